@@ -76,6 +76,9 @@ def gen_cases(tier, seed):
         if not cyc and rng.random() < 0.3:
             c["superset"] = [w for _, w in base["planted"]][:3] + [1]
         cases.append(c)
+    for i in range(30 if tier == "quick" else 300):
+        # the SAME graph object (same id label, same size) with other flow values for the second model, or an equal-sized copy of it
+        cases.append({"kind": "reflow", "rs": f"C18rf:{seed}:{i}"})
     for i in range(6 if tier == "quick" else 60):
         # models of one process that ask for different numbers of solver threads (own worker group: the HiGHS task scheduler is process-wide)
         cases.append({"kind": "threads", "rs": f"C18thr:{seed}:{i}", "group": "mix"})
@@ -161,6 +164,14 @@ def outcome(cls, G, kw, idem, viol, obs, tag):
     summ = ("solved", round(o1[1], 6) if o1[0] == "ok" and isinstance(o1[1], (int, float)) else str(o1[1:]), nroutes)
     if idem:
         obs["c18.idempotence_checks"] += 1
+        # (a call with the other value of the remove_empty_* switch in between must not change what the plain call returns)
+        try:
+            par_ = [p_ for p_ in inspect.signature(m.get_solution).parameters if p_.startswith("remove_empty")]
+        except (TypeError, ValueError):
+            par_ = []
+        if par_:
+            M.safe_call(m.get_solution, **{par_[0]: True}); M.safe_call(m.get_solution, **{par_[0]: False})
+            obs["c18.get_solution_variants_interleaved"] += 1
         g2 = M.safe_call(m.get_solution); o2 = M.safe_call(m.get_objective_value)
         if M.struct(g1[1:]) != M.struct(g2[1:]) or o1 != o2:
             viol.append({"sig": f"C18/getters-not-repeatable/{cls}", "msg": f"get_solution()/get_objective_value() differ between two calls; {tag}"})
@@ -224,9 +235,75 @@ def run_threads(case):
     return {"viol": viol, "obs": dict(obs), "nontrivial": True, "keys": [hashlib.sha1(desc.encode()).hexdigest()[:14]], "sample": {"threads": seq, "cls": cls}}
 
 
+def run_reflow(case):
+    """model A on graph G with flow f1; then the caller overwrites the flow values of the same graph object (or of an equal-sized copy carrying
+    the same 'id' label) with f2 and builds model B: B's result must be the one of B on a fresh, unrelated graph object with f2"""
+    viol = []; obs = collections.Counter()
+    rng = gen.rng_for(case["rs"])
+    nodes, edges = gen.dag_any(rng, 10)
+    f1, p1 = gen.plant_paths(rng, nodes, edges, npaths=rng.randint(2, 4), maxw=9)
+    f2, p2 = gen.plant_paths(rng, nodes, edges, npaths=rng.randint(1, 4), maxw=9)
+    if any(v == 0 for v in f1.values()) or any(v == 0 for v in f2.values()) or f1 == f2:
+        return {"viol": [], "obs": {"c18.reflow_skipped": 1}, "nontrivial": False}
+    cls = rng.choice(["kFlowDecomp", "MinFlowDecomp", "kFlowDecomp", "kLeastAbsErrors", "kMinPathError"])
+    oo = rng.choice([None, None, {"optimize_with_greedy": False}, {"optimize_with_safety_as_subpath_constraints": True, "optimize_with_greedy": False}])
+    def mk(flow, gid=None):
+        G_ = nx.DiGraph()
+        if gid is not None:
+            G_.graph["id"] = gid
+        for e in edges:
+            G_.add_edge(*e, flow=flow[e])
+        return G_
+    def solve(G_, k_):
+        kw = {"flow_attr": "flow", "weight_type": int, "solver_options": {"threads": 1, "time_limit": 20}}
+        if cls.startswith("k"):
+            kw["k"] = k_
+        if oo is not None:
+            kw["optimization_options"] = dict(oo)
+        r = M.safe_call(getattr(fp, cls), G_, **kw)
+        if r[0] != "ok":
+            return ("ctor-" + r[1],)
+        s_ = M.safe_call(r[1].solve)
+        if s_[0] != "ok":
+            return ("solve-" + s_[1],)
+        if not r[1].is_solved():
+            return ("unsolved",)
+        sol = r[1].get_solution()
+        # the decomposition must explain THIS graph's flow (flow models), and the objective / number of paths is compared
+        if cls in ("kFlowDecomp", "MinFlowDecomp"):
+            got = collections.Counter()
+            for p_, w_ in zip(sol["paths"], sol["weights"]):
+                for e in zip(p_, p_[1:]):
+                    got[e] += w_
+            if any(got.get(e, 0) != G_.edges[e]["flow"] for e in G_.edges):
+                return ("solved-but-explains-another-flow", len(sol["paths"]))
+            return ("solved", len([p_ for p_ in sol["paths"] if p_]) if cls == "MinFlowDecomp" else None)
+        return ("solved", round(r[1].get_objective_value(), 6))
+    mode = rng.choice(["same-object", "same-id-copy"])
+    G = mk(f1, gid="sample-1"); kA = len(p1); kB = len(p2)
+    a = solve(G, kA)
+    if mode == "same-object":
+        for e in edges:
+            G.edges[e]["flow"] = f2[e]
+        GB = G
+    else:
+        GB = mk(f2, gid="sample-1")
+    b = solve(GB, kB)
+    iso = solve(mk(f2, gid="unrelated"), kB)
+    obs["c18.reflow_histories"] += 1
+    desc = f"{cls} oo={oo} {mode}: edges={edges} first flow {sorted(f1.items())} second flow {sorted(f2.items())}; first model {a}"
+    if "time" in str(b) or "time" in str(iso):
+        return {"viol": [], "obs": dict(obs), "nontrivial": False}
+    if b != iso:
+        viol.append({"sig": f"C18/result-depends-on-history/same-graph-new-flow/{cls}", "msg": f"second model after the first: {b}; the same model on a fresh graph object: {iso}; {desc}"[:1200]})
+    return {"viol": viol, "obs": dict(obs), "nontrivial": True, "keys": [hashlib.sha1(desc.encode()).hexdigest()[:14]], "sample": {"reflow": mode, "cls": cls}}
+
+
 def run_case(case):
     if case.get("kind") == "threads":
         return run_threads(case)
+    if case.get("kind") == "reflow":
+        return run_reflow(case)
     old = (fp.MinFlowDecomp.subgraph_lowerbound_size, fp.MinFlowDecomp.subgraph_lowerbound_shift)
     fp.MinFlowDecomp.subgraph_lowerbound_size, fp.MinFlowDecomp.subgraph_lowerbound_shift = 3, 2      # the scanning option then acts on small graphs
     try:
